@@ -12,6 +12,7 @@ func moreGens() []struct {
 		{"Encoding.v", genEncoding},   // C18
 		{"Conv.v", genConv},           // C02
 		{"EdiConsts.v", genEdiConsts}, // C07
+		{"EdiShape.v", genEdiShape},   // C07
 		{"Safety.v", genSafety},       // C03
 		{"DeclHash.v", genDeclHash},   // C13, C15
 	}
